@@ -645,6 +645,17 @@ def t_solve(I, A, B):
     return Tensor(STensor(shape, fn, "real"))
 
 
+def t_inv(I, A):
+    """linalg.inv: the solution X of A X = 1 (requires A invertible, as linalg.solve)"""
+    A = lift(A)
+    n = A.shape[-1].concrete()
+    if n is None:
+        raise Unsupported("inv with symbolic matrix size")
+    nb = A.rank - 2
+    eye = STensor(list(A.shape[:-2]) + [Dim([n]), Dim([n])], lambda idx: z3.If(zint(idx[nb][0] if idx[nb] else 0) == zint(idx[nb + 1][0] if idx[nb + 1] else 0), z3.RealVal(1), z3.RealVal(0)), "real")
+    return t_solve(I, A, eye)
+
+
 def t_cat(I, ts, dim=0, **kw):
     if "axis" in kw:
         dim = kw["axis"]
@@ -712,7 +723,8 @@ def t_narrow(I, t, dim, start, length):
 
 
 def t_view_as(I, t, other):
-    return Tensor(tshape.reshape(I, t.val, [d.size() for d in lift(other).shape]))
+    spec = [d.size() for d in lift(other).shape]
+    return _reshaped(I, t, tshape.reshape(I, t.val, spec), lambda bv: tshape.reshape(I, bv, spec))
 
 
 def t_numel(I, a):
@@ -737,6 +749,19 @@ class NumpyArray:
 
 
 # ----------------------------------------------------------------------------- tensor attributes
+# private names torch.Tensor really defines (dir(torch.Tensor) of the pinned torch, names with one leading underscore):
+# asking for one of these is "unmodelled", any other private name is an AttributeError unless the program stored it
+_REAL_PRIVATE_TENSOR_ATTRS = frozenset(
+    """_addmm_activation _autocast_to_full_precision _autocast_to_reduced_precision _backward_hooks _base _cdata
+    _clear_non_serializable_cached_data _coalesced_ _conj _conj_physical _dimI _dimV _fix_weakref _grad _grad_fn
+    _has_symbolic_sizes_strides _indices _is_all_true _is_any_true _is_view _is_zerotensor _lazy_clone _make_subclass
+    _make_wrapper_subclass _namedtensor_internals _neg_view _nested_tensor_size _nested_tensor_storage_offsets
+    _nested_tensor_strides _nnz _philox_normal_ _philox_uniform_ _dtensor__new__ _post_accumulate_grad_hooks _python_dispatch _reduce_ex_internal _rev_view_func_unsafe
+    _sparse_mask_projection _to_dense _to_sparse _to_sparse_bsc _to_sparse_bsr _to_sparse_csc _to_sparse_csr
+    _typed_storage _update_names _use_count _values _version _view_func _view_func_unsafe""".split()
+)
+
+
 def tensor_attr(I, t, name):
     IN = _IN()
     B = IN.Builtin
@@ -752,9 +777,9 @@ def tensor_attr(I, t, name):
     if name == "ndim":
         return v.rank
     if name == "T":
-        return Tensor(tshape.permute(I, v, list(range(v.rank))[::-1]))
+        return _permuted(I, t, list(range(v.rank))[::-1])
     if name == "data":
-        return Tensor(v)
+        return _m_detach(I, t)
     if name == "grad_fn":
         from . import autograd
 
@@ -763,14 +788,32 @@ def tensor_attr(I, t, name):
         return "deps" not in t.meta
     if name == "grad":
         return t.meta.get("grad")
+    if name in t.meta.get("pyattrs", ()):
+        return t.meta["pyattrs"][name]
     M = TENSOR_METHODS.get(name)
     if M is None:
+        if name.startswith("_") and not name.startswith("__") and name not in _REAL_PRIVATE_TENSOR_ATTRS:
+            raise IN.RaisedEx("AttributeError", f"'Tensor' object has no attribute '{name}'")
         raise Unsupported(f"tensor.{name} has no model")
     return B(f"Tensor.{name}", lambda I2, *a, **k: M(I2, t, *a, **k))
 
 
+def _same_factors(a, b):
+    fa = [core._norm_factor(f) for d in a for f in d.factors]
+    fb = [core._norm_factor(f) for d in b for f in d.factors]
+    return len(fa) == len(fb) and all((x == y) if isinstance(x, int) and isinstance(y, int) else (not isinstance(x, int) and not isinstance(y, int) and z3.eq(x, y)) for x, y in zip(fa, fb))
+
+
+def _reshaped(I, t, val, fwd):
+    """reshape / view / flatten / squeeze / unsqueeze: a view when t is contiguous or only size-1 axes change"""
+    if t.contig or _same_factors(t.val.shape, val.shape):
+        return tlib.make_view(t, val, fwd, lambda bv, nv: tshape.reshape(I, nv, list(bv.shape)), t.contig)
+    return tlib.maybe_alias(t, val)
+
+
 def _m_reshape(I, t, *shape):
-    return _keep(t, Tensor(tshape.reshape(I, t.val, _shape_arg(I, shape))))
+    spec = _shape_arg(I, shape)
+    return _keep(t, _reshaped(I, t, tshape.reshape(I, t.val, spec), lambda bv: tshape.reshape(I, bv, spec)))
 
 
 def _keep(src, out):
@@ -821,15 +864,16 @@ def _m_repeat(I, t, *reps):
 
 
 def _m_expand(I, t, *sizes):
-    return Tensor(tshape.expand(I, t.val, _shape_arg(I, sizes)))
+    sz = _shape_arg(I, sizes)
+    return tlib.make_view(t, tshape.expand(I, t.val, sz), lambda bv: tshape.expand(I, bv, sz), None, False)
 
 
 def _m_unsqueeze(I, t, dim):
-    return _keep(t, Tensor(tshape.unsqueeze(I, t.val, dim)))
+    return _keep(t, _reshaped(I, t, tshape.unsqueeze(I, t.val, dim), lambda bv: tshape.unsqueeze(I, bv, dim)))
 
 
 def _m_squeeze(I, t, dim=None):
-    return _keep(t, Tensor(tshape.squeeze(I, t.val, dim)))
+    return _keep(t, _reshaped(I, t, tshape.squeeze(I, t.val, dim), lambda bv: tshape.squeeze(I, bv, dim)))
 
 
 def _m_clone(I, t, **kw):
@@ -837,7 +881,7 @@ def _m_clone(I, t, **kw):
 
 
 def _m_detach(I, t):
-    return Tensor(t.val)
+    return tlib.make_view(t, t.val, lambda bv: bv, lambda bv, nv: nv, t.contig)
 
 
 def _m_fill(I, t, value):
@@ -859,7 +903,7 @@ def _m_flatten(I, t, start_dim=0, end_dim=-1):
     s, e = tshape.norm_axis(I, start_dim, r), tshape.norm_axis(I, end_dim, r)
     sizes = [d.size() for d in t.val.shape]
     spec = sizes[:s] + [-1] + sizes[e + 1 :]
-    return Tensor(tshape.reshape(I, t.val, spec))
+    return _reshaped(I, t, tshape.reshape(I, t.val, spec), lambda bv: tshape.reshape(I, bv, spec))
 
 
 def _m_requires_grad_(I, t, flag=True):
@@ -872,12 +916,23 @@ def _m_copy_(I, t, src):
     return t
 
 
+def _permuted(I, t, order):
+    order = [tshape.norm_axis(I, k, t.val.rank) for k in order]
+    inv = [order.index(k) for k in range(len(order))] if sorted(order) == list(range(len(order))) else None
+    val = tshape.permute(I, t.val, order)
+    return _keep(t, tlib.make_view(t, val, lambda bv: tshape.permute(I, bv, order), lambda bv, nv: tshape.permute(I, nv, inv), t.contig and order == sorted(order)))
+
+
 def _m_permute(I, t, *order):
-    return _keep(t, Tensor(tshape.permute(I, t.val, _shape_arg(I, order))))
+    return _permuted(I, t, _shape_arg(I, order))
 
 
 def _m_transpose(I, t, a, b):
-    return _keep(t, Tensor(tshape.transpose(I, t.val, a, b)))
+    r = t.val.rank
+    order = list(range(r))
+    a, b = tshape.norm_axis(I, a, r), tshape.norm_axis(I, b, r)
+    order[a], order[b] = order[b], order[a]
+    return _permuted(I, t, order)
 
 
 def _wrap(f):
@@ -912,7 +967,7 @@ TENSOR_METHODS = {
     "squeeze": _m_squeeze,
     "clone": _m_clone,
     "detach": _m_detach,
-    "contiguous": lambda I, t: t,
+    "contiguous": lambda I, t: t if t.contig else Tensor(t.val),
     "fill_": _m_fill,
     "dim": _m_dim,
     "numel": _m_numel,
@@ -935,6 +990,7 @@ TENSOR_METHODS = {
     "sub_": _inplace(ast.Sub),
     "mul_": _inplace(ast.Mult),
     "div_": _inplace(ast.Div),
+    "pow_": _inplace(ast.Pow),
     "add": _bin(ast.Add),
     "sub": _bin(ast.Sub),
     "mul": _bin(ast.Mult),
@@ -1092,9 +1148,9 @@ def install(I):
         "stack": B("stack", t_stack),
         "column_stack": B("column_stack", t_column_stack),
         "meshgrid": B("meshgrid", t_meshgrid),
-        "reshape": B("reshape", lambda I2, a, shape: Tensor(tshape.reshape(I2, a, _shape_arg(I2, [shape])))),
-        "permute": B("permute", lambda I2, a, order: Tensor(tshape.permute(I2, a, order))),
-        "transpose": B("transpose", lambda I2, a, d0, d1: Tensor(tshape.transpose(I2, a, d0, d1))),
+        "reshape": B("reshape", lambda I2, a, shape: _m_reshape(I2, a if isinstance(a, Tensor) else Tensor(lift(a)), shape)),
+        "permute": B("permute", lambda I2, a, order: _m_permute(I2, a if isinstance(a, Tensor) else Tensor(lift(a)), order)),
+        "transpose": B("transpose", lambda I2, a, d0, d1: _m_transpose(I2, a if isinstance(a, Tensor) else Tensor(lift(a)), d0, d1)),
         "flip": B("flip", lambda I2, a, dims: Tensor(tshape.flip(I2, a, dims))),
         "unsqueeze": B("unsqueeze", lambda I2, a, dim: _m_unsqueeze(I2, a if isinstance(a, Tensor) else Tensor(lift(a)), dim)),
         "squeeze": B("squeeze", lambda I2, a, dim=None: _m_squeeze(I2, a if isinstance(a, Tensor) else Tensor(lift(a)), dim)),
@@ -1107,7 +1163,7 @@ def install(I):
         "is_tensor": B("is_tensor", lambda I2, o: isinstance(o, Tensor)),
         "no_grad": NoGrad(),
         "set_grad_enabled": NoGrad(),
-        "linalg": S("torch.linalg", {"norm": B("linalg.norm", t_norm), "solve": B("linalg.solve", t_solve)}),
+        "linalg": S("torch.linalg", {"norm": B("linalg.norm", t_norm), "solve": B("linalg.solve", t_solve), "inv": B("linalg.inv", t_inv)}),
         "distributions": S("torch.distributions", {"normal": S("torch.distributions.normal", {"Normal": B("Normal", lambda I2, loc=0.0, scale=1.0, **kw: NormalDist(I2, loc, scale))})}),
     }
     tbl.update(TORCH_DTYPES)
